@@ -289,6 +289,16 @@ def db_case(draw):
     )
     sub_all = st.tuples(st.just('sub_all'), cidx, st.booleans())
     ops = [list(o) for o in draw(st.lists(st.one_of(sub, sub, sub_all), min_size=0, max_size=5))] + [list(o) for o in draw(st.lists(op, min_size=0, max_size=10))]
+    if draw(st.integers(0, 3)) == 0:
+        # a subscribed client drops its connection and comes back (usually on the same connection handle), then the
+        # server sends again: the new connection has subscribed to nothing
+        sends = st.one_of(
+            st.tuples(st.just('notify_all'), cidx, vlen, st.integers(0, 255)),
+            st.tuples(st.just('indicate_all'), cidx, vlen, st.integers(0, 255)),
+            st.tuples(st.just('matching_all'), cidx, vlen, st.integers(0, 255)),
+            sub,
+        )
+        ops += [['reconnect', draw(idx)]] + [list(o) for o in draw(st.lists(sends, min_size=1, max_size=4))]
     return {
         'kind': 'db',
         'defaults': draw(st.sampled_from([False, False, True])),
@@ -541,7 +551,7 @@ async def _drive_db(loop, case, S, fail):
                                      f'server side uses {conn_p.att_mtu}, client side {conn_c.att_mtu}')
                 raise _Abort()
             S['phase'] = 'setup'
-        bearers.append({'k': k, 'j': 0, 'client': client, 'srv': conn_p, 'mtu': mtu, 'enh': False, 'conn_p': conn_p,
+        bearers.append({'k': k, 'j': 0, 'client': client, 'srv': conn_p, 'mtu': mtu, 'enh': False, 'conn_p': conn_p, 'conn_c': conn_c,
                         'h2c': (conn_p.handle, att.ATT_CID), 'c2h': (conn_p.handle, att.ATT_CID)})
         for j, emtu in enumerate(cd['eatt']):
             S['phase'] = 'connect_eatt'
@@ -559,6 +569,7 @@ async def _drive_db(loop, case, S, fail):
     if len(bearers) >= 2:
         labels.add('several_bearers')
     S['bearers'] = bearers
+    S['world'] = w
 
     # ---- structure
     for bi, b in enumerate(bearers):
@@ -833,12 +844,43 @@ async def _run_ops(loop, case, S, fail, sniffer, server, L, my_chars, sub_chars,
             expanded.extend(['sub', bi, op[1], op[2]] for bi in range(len(bearers)))
         else:
             expanded.append(op)
+    def alive(i):
+        live = [bi for bi, x in enumerate(bearers) if not x.get('dead')]
+        return live[i % len(live)]
+
     for op in expanded:
         name = op[0]
+        if name == 'reconnect':
+            # the client drops its connection and comes back: every bearer of the old connection is gone (with its
+            # subscriptions); the new connection starts on the fixed bearer at the default ATT_MTU, subscribed to nothing
+            k = op[1] % len(case['clients'])
+            old = [bi for bi, x in enumerate(bearers) if x['k'] == k and not x.get('dead')]
+            first = bearers[old[0]]
+            old_handle = first['conn_p'].handle
+            S['phase'] = 'reconnect'
+            await first['conn_c'].disconnect()
+            await asyncio.sleep(QUIET)
+            for bi in old:
+                bearers[bi]['dead'] = True
+                for key in [key for key in subs if key[0] == bi]:
+                    del subs[key]
+            conn_c, conn_p = await S['world'].connect_le(1 + k, 0)
+            nb = {'k': k, 'j': 0, 'client': conn_c.gatt_client, 'srv': conn_p, 'mtu': 23, 'enh': False, 'conn_p': conn_p, 'conn_c': conn_c,
+                  'h2c': (conn_p.handle, att.ATT_CID), 'c2h': (conn_p.handle, att.ATT_CID)}
+            bearers.append(nb)
+            labels.add('reconnect')
+            if conn_p.handle == old_handle:
+                labels.add('reconnect_same_handle')
+            if old and any(bearers[bi]['enh'] for bi in old):
+                labels.add('reconnect_after_eatt')
+            if not await _discover_and_compare(case, S, fail, sniffer, L, nb, full=True, classify=False):
+                raise _Abort()
+            S['phase'] = 'ops'
+            continue
         if name in ('sub', 'unsub'):
             if not sub_chars:
                 continue
-            bi = op[1] % len(bearers)
+            bi = alive(op[1])
             b = bearers[bi]
             reach = [c for c in sub_chars if c['vh'] in b['chars']]
             if not reach:
@@ -868,7 +910,7 @@ async def _run_ops(loop, case, S, fail, sniffer, server, L, my_chars, sub_chars,
         elif name == 'write':
             if not my_chars:
                 continue
-            bi = op[1] % len(bearers)
+            bi = alive(op[1])
             b = bearers[bi]
             reach = [c for c in my_chars if c['vh'] in b['chars']]
             if not reach:
@@ -894,7 +936,7 @@ async def _run_ops(loop, case, S, fail, sniffer, server, L, my_chars, sub_chars,
         elif name == 'read':
             if not my_chars:
                 continue
-            bi = op[1] % len(bearers)
+            bi = alive(op[1])
             b = bearers[bi]
             lc = my_chars[op[2] % len(my_chars)]
             expected = bytes(lc['value_obj'].value)
@@ -918,7 +960,7 @@ async def _run_ops(loop, case, S, fail, sniffer, server, L, my_chars, sub_chars,
                 vlen, seed = op[2], op[3]
                 target, force = None, False
             else:
-                target = op[1] % len(bearers)
+                target = alive(op[1])
                 lc = pool[op[2] % len(pool)]
                 vlen, seed, force = op[3], op[4], bool(op[5])
             if name.startswith('matching'):
@@ -986,10 +1028,10 @@ async def _run_ops(loop, case, S, fail, sniffer, server, L, my_chars, sub_chars,
                 if not p:
                     continue
                 if d == world.H2C and p[0] in (0x1B, 0x1D):
-                    owner = [bi for bi, x in enumerate(bearers) if x['h2c'] == (hd, cid)]
+                    owner = [bi for bi, x in enumerate(bearers) if x['h2c'] == (hd, cid) and not x.get('dead')]
                     sent.setdefault(owner[0] if owner else ('?', hd, cid), []).append(p)
                 elif d == world.C2H and p[0] == 0x1E:
-                    owner = [bi for bi, x in enumerate(bearers) if x['c2h'] == (hd, cid)]
+                    owner = [bi for bi, x in enumerate(bearers) if x['c2h'] == (hd, cid) and not x.get('dead')]
                     confirms.setdefault(owner[0] if owner else ('?', hd, cid), []).append(pos)
             problem = None
             vproblem = None
@@ -1345,7 +1387,7 @@ def run(ctx) -> None:
         ('mixed_uuid_widths:descriptors', 10), ('multi_pdu:services', 10), ('multi_pdu:characteristics', 10),
         ('multi_pdu:descriptors', 10), ('write:request', 3), ('write:command', 3), ('subscribe:notify', 10),
         ('subscribe:indicate', 10), ('send:indicate_subscriber:eatt_target', 3), ('send:notify_subscriber:eatt_target', 3),
-        ('hci_delays', 10), ('read_on_eatt', 10), ('long_read_on_eatt', 3),
+        ('hci_delays', 10), ('read_on_eatt', 10), ('long_read_on_eatt', 3), ('reconnect', 10), ('reconnect_same_handle', 5),
     ):
         ctx.floor(label, n)
     for p in PROCS:
